@@ -41,9 +41,9 @@ def case_grid(tier, seed, which):
     add("basic", 4, 2, 1500, 11, 100, 15, 3, fallback=0.1, n=rep)
     add("manysamples", 100, 1, 300, 9, 50, 15, 4)                       # > 50 distinct deltas per group: two packs, duplicates in the open second pack
     add("manysamples", 30, 2, 400, 9, 50, 15, 3, mode="single")      # 60 contigs in one file: pack-boundary rounds
+    add("manyorphans", 2, 1, 600, 11, 100, 15, 4)                       # 840 contigs shorter than k: every raw group fills its first pack (placeholder + 49)
     if not quick:
         add("manysamples", 120, 1, 250, 9, 50, 15, 8)
-        add("manyorphans", 2, 1, 600, 11, 100, 15, 4)
         add("basic", 8, 4, 1500, 11, 100, 15, 6, n=2)
         add("iupac", 6, 3, 2000, 14, 120, 17, 5, n=2)
     if which == "ragc":
